@@ -1186,7 +1186,7 @@ def t_attrops( ctx ):
     if params and isinstance( first, ast.Name ) and first.id == params[0]:
         res.ok( src, loop, 'client.parse_operations( %s, ... ): the operation texts are passed on as given' % params[0] )
     else:
-        res.bad( src, loop, 'client.parse_operations( %s ... )' % ( norm_text( txt( first ))[:40] if first is not None else '' ),
+        res.bad( src, loop, 'client.parse_operations( %s ... )' % ( norm_text( ast.unparse( first ))[:40] if first is not None else '' ),
                  'the operations parsed are not the texts the caller supplied', func='attribute_operations' )
     if loop.orelse:
         raise AnalysisError( 'attribute_operations: for ... else' )
@@ -1285,7 +1285,7 @@ def t_methods( ctx ):
         t = cur.test
         mt = pmatch( t, '%s == _name' % METHOD )
         if mt is None or try_fold( mt['_name'] ) is None:
-            raise AnalysisError( 'connector.issue: dispatch test %s' % norm_text( txt( t ))[:60] )
+            raise AnalysisError( 'connector.issue: dispatch test %s' % norm_text( ast.unparse( t ))[:60] )
         name = try_fold( mt['_name'] )
         calls = [ c for s_ in cur.body for c in ast.walk( s_ ) if isinstance( c, ast.Call ) and isinstance( c.func, ast.Attribute )
                   and isinstance( c.func.value, ast.Name ) and c.func.value.id == 'self' and any( k.arg is None and isinstance( k.value, ast.Name ) and k.value.id == OP for k in c.keywords ) ]
@@ -1301,7 +1301,7 @@ def t_methods( ctx ):
             if len( send ) == 1 and pmatch( send[0], 'not multiple' ):
                 res.ok( src, c, "method == %r -> self.%s( send=not multiple, **%s )" % ( name, want, OP ))
             else:
-                res.bad( src, c, "method == %r: self.%s( send=%s )" % ( name, want, norm_text( txt( send[0] )) if send else 'default' ),
+                res.bad( src, c, "method == %r: self.%s( send=%s )" % ( name, want, norm_text( ast.unparse( send[0] )) if send else 'default' ),
                          'a request that is to be bundled is sent alone as well ( or a lone one is never sent ): one result per operation no longer holds', func='connector.issue' )
         seen[name] = cur
         if len( cur.orelse ) == 1 and isinstance( cur.orelse[0], ast.If ):
@@ -1364,10 +1364,82 @@ def t_methods( ctx ):
         wantkw = { 'request': 'req', 'route_path': 'route_path', 'send_path': 'send_path', 'sender_context': 'sender_context', 'timeout': 'timeout' }
         wrong = [ a for a, n in wantkw.items() if not ( isinstance( kw.get( a ), ast.Name ) and kw[a].id == n ) ]
         if wrong:
-            res.bad( src, c, '%s: req_send( %s )' % ( qn, ', '.join( '%s=%s' % ( a, norm_text( txt( kw[a] )) if a in kw else '<absent>' ) for a in wrong )),
+            res.bad( src, c, '%s: req_send( %s )' % ( qn, ', '.join( '%s=%s' % ( a, norm_text( ast.unparse( kw[a] )) if a in kw else '<absent>' ) for a in wrong )),
                      'the request is sent with another %s than the operation was given' % ' / '.join( wrong ), func=qn )
         elif not ( isinstance( g, ast.If ) and isinstance( g.test, ast.Name ) and g.test.id == 'send' and not g.orelse ):
             res.bad( src, c, '%s: req_send not under `if send:`' % qn, 'a request built for a bundle is sent alone as well, or a lone one is not sent', func=qn )
         else:
             res.ok( src, c, '%s: if send: req_send( request=req, route_path=route_path, send_path=send_path, timeout=timeout, sender_context=sender_context )' % qn )
+    return res
+
+
+# ---------------------------------------------------------------- T-OPTYPE: the type a write's value list is cast with
+
+_OPTYPE_CELLS = (			# ( value text, int_type ) -> ( type name, remaining value text )
+    (( '1,2', 'INT' ),               ( 'INT', '1,2' )),
+    (( '1,2', 'sint' ),              ( 'SINT', '1,2' )),
+    (( '1.5,2', 'INT' ),             ( 'REAL', '1.5,2' )),
+    (( '(DINT)1,2', 'INT' ),         ( 'DINT', '1,2' )),
+    (( '(LREAL)1.5,2.25', 'INT' ),   ( 'LREAL', '1.5,2.25' )),
+    (( '(SSTRING)"v1.2"', 'INT' ),   ( 'SSTRING', '"v1.2"' )),
+    (( '( real ) 1', 'INT' ),        ( 'REAL', ' 1' )),
+    (( '(DINT)1.5', 'INT' ),         ( 'DINT', '1.5' )),
+)
+
+
+@rule( 'T-OPTYPE', props=( 'C12', ), floor=8 )
+def t_optype( ctx ):
+    """parse_operations: the values of a write are converted with the type the text spells - an explicit (TYPE) cast has the last word, a '.'
+    among un-cast values means REAL, otherwise the caller's int_type; the cast is taken off the value text.  The statements between
+    `if <values>:` and the reader that splits the list are evaluated on 8 operation texts ( cast / no cast x '.' / none x int_type )."""
+    from .fold import run_block
+    res = Result( 'T-OPTYPE' )
+    src = ctx.src( CLIENT )
+    fn = src.get( 'parse_operations' )
+    calls = [ c for c in ast.walk( fn ) if is_call_to( c, 'csv.reader' ) ]
+    if len( calls ) != 1:
+        raise AnalysisError( 'parse_operations: the csv.reader call not found' )
+    # the innermost `if <name>:` around the reader, <name> being the value text handed to it
+    VAL = next(( x.id for x in ast.walk( calls[0].args[0] ) if isinstance( x, ast.Name )), None ) if calls[0].args else None
+    blk = None
+    for a in src.ancestors( calls[0] ):
+        if isinstance( a, ast.If ) and isinstance( a.test, ast.Name ) and a.test.id == VAL:
+            blk = a
+            break
+    if blk is None:
+        raise AnalysisError( 'parse_operations: `if <values>:` around the csv.reader not found' )
+    head = []
+    for st in blk.body:
+        if any( c is calls[0] for c in ast.walk( st )):
+            break
+        head.append( st )
+    stores = [ t for st in head for t in ast.walk( st ) if isinstance( t, ast.Subscript ) and isinstance( t.ctx, ast.Store ) and try_fold( t.slice ) == 'tag_type' and isinstance( t.value, ast.Name ) ]
+    if not stores:
+        raise AnalysisError( "parse_operations: no store of <op>['tag_type'] ahead of the reader" )
+    OPR = stores[0].value.id
+    table = { n: ( 'type:' + n, 'size:' + n, 'cast:' + n ) for n in ( 'BOOL', 'SINT', 'INT', 'DINT', 'LINT', 'USINT', 'UINT', 'UDINT', 'ULINT', 'REAL', 'LREAL', 'SSTRING', 'STRING' ) }
+    params = [ a.arg for a in fn.args.args ]
+    ITYPE = 'int_type' if 'int_type' in params else None
+    if ITYPE is None:
+        raise AnalysisError( 'parse_operations: no int_type parameter' )
+    for ( text, ityp ), ( wtyp, wrest ) in _OPTYPE_CELLS:
+        env = { VAL: text, ITYPE: ityp, OPR: {}, 'CIP_TYPES': table }
+        cell = 'values %r, int_type %r' % ( text, ityp )
+        try:
+            out = run_block( head, env, ignore_calls=( 'log', ))
+        except NoFold as exc:
+            raise AnalysisError( 'parse_operations: type deduction is not a decision fragment ( %s ): %s' % ( cell, exc ))
+        if out.kind != 'fall':
+            res.bad( src, out.node or blk, 'parse_operations: %s -> %s' % ( cell, out ), 'a well-formed value list is refused' )
+            continue
+        got = str( env[OPR].get( 'tag_type' )).replace( 'type:', '' )
+        casts = sorted( { str( v ).replace( 'cast:', '' ) for k, v in env.items() if isinstance( v, str ) and v.startswith( 'cast:' ) } )
+        if got != wtyp or casts != [ wtyp ]:
+            res.bad( src, stores[-1], 'parse_operations: %s -> tag_type %s, values converted as %s' % ( cell, got, '/'.join( casts ) or 'nothing' ),
+                     'the operation text spells %s ( an explicit cast has the last word; without one a "." means REAL, else int_type )' % wtyp )
+        elif env[VAL] != wrest:
+            res.bad( src, stores[-1], 'parse_operations: %s -> value text %r' % ( cell, env[VAL] ), 'the cast has to be taken off the value text ( %r )' % wrest )
+        else:
+            res.ok( src, stores[-1], '%s -> %s, values %r' % ( cell, got, env[VAL] ))
+    res.cells = len( _OPTYPE_CELLS )
     return res
